@@ -69,7 +69,7 @@ Definition c08_case (full imports : bool) (modname : option string) (S : list st
        body_eqb (erase out) (erase t');
        zlist_eqb (lines out) (lines orig);
        deco_ok full t' out;
-       located out;
+       implb (located orig) (located out);
        implb (future_ok orig) (future_ok out);
        implb (star_free orig) (star_free out)]
   | None => [corr; false; true; true; true; true; true]   (* the rewrite itself failed *)
